@@ -17,6 +17,7 @@ re-parented to the first function it was inlined into) so that its statements ar
 The obligation engine (C05/C19) works on the original bodies, not on this view: its sites are keyed by where the code lives.
 """
 import copy
+from .cfg import succs_of_term
 import os
 import re
 
@@ -366,9 +367,15 @@ def body_hash(b):
     for blk in b.blocks:
         h.update(b"|")
         for st in blk["stmts"]:
-            feed(st)
-        if blk["term"] is not None:
-            feed(blk["term"])
+            if not st.get("exp"):
+                feed(st)
+        t = blk["term"]
+        if t is not None:
+            if t.get("exp"):
+                # what a macro expands to carries line numbers (log!, panic locations): only the shape of the control flow counts
+                feed({"k": t["k"], "succ": succs_of_term(t)})
+            else:
+                feed(t)
     return h.hexdigest()[:16]
 
 
